@@ -1,8 +1,9 @@
-(** The Gallina that tools/py2coq_scalar.py generates from the CURRENT page_hinkley.py / ddm.py / eddm.py
-    (Scalar_Gen.v, regenerated on every run of the C04 / C05 checks) computes, for EVERY arithmetic instance [N : Num]
-    (no law is assumed: the statements hold of the bit-exact float instance and of the reals alike), every parameter
-    value, every state and every input, the same values as the hand-written kernels [ph_step] (ChangeDet.v),
-    [ddm_step] and [eddm_step] (Ddm.v); hence theorems of Prop_C04.v / Prop_C05.v hold of the translated source.
+(** The Gallina that tools/py2coq_scalar.py generates from the CURRENT page_hinkley.py / ddm.py / eddm.py / stepd.py /
+    cusum.py (Scalar_Gen.v, regenerated on every run of the C04 / C05 checks) computes, for EVERY arithmetic instance
+    [N : Num] (no law is assumed: the statements hold of the bit-exact float instance and of the reals alike), every
+    parameter value, every state and every input, the same values as the hand-written kernels [ph_step], [cusum_step] /
+    [cusum_reset] (ChangeDet.v), [ddm_step], [eddm_step] and [stepd_step] (Ddm.v); hence theorems of Prop_C04.v /
+    Prop_C05.v hold of the translated source.
 
     Compiled by the harness in a scratch directory against the freshly generated file:
       coqc -Q /verif/coq MV -Q . MVG Scalar_Gen.v ; coqc -Q /verif/coq MV -Q . MVG Scalar_Gen_Proofs.v
@@ -14,10 +15,17 @@
     eight history lists that update() appends to, is outside the statement).  DDM: _error_rate, _error_std,
     _error_rate_min, _error_std_min <-> d_rate, d_std, d_rate_min, d_std_min (all fields).  EDDM: _n_errors,
     _index_error_curr, _index_error_last, _dist_mean, _dist_std, _max_numerator, _test_statistic <-> all seven fields of
-    eddm_e.  In all three: the value assigned to drift_state (None = no assignment executed) <-> the second component of
-    the kernel step; the third component of the translated function (no unbound local was read) is [true]. *)
+    eddm_e.  STEPD: _s, _r, _window, _test_statistic, _test_p <-> all five fields of stepd_e; the second input is the
+    oracle value of `1 - norm.cdf(statistic)` (the ARGUMENT of the scipy call is not part of the statement).  In these
+    four: the value assigned to drift_state (None = no assignment executed) <-> the second component of the kernel step;
+    the third component of the translated function (no UnboundLocalError / IndexError / ZeroDivisionError) is [true]
+    (STEPD: exactly when window_size and n - window_size are not 0 where the statistic divides by them).
+    CUSUM: target, sd_hat <-> c_target, c_sd; the LISTS _upper_bound / _lower_bound <-> their last entries c_up / c_lo
+    (precondition: both lists have samples_since_reset entries, which is what `self._upper_bound[n - 1]` needs to be the
+    last entry; the translated function appends the model's new c_up / c_lo); _stream (oldest first) <-> rev of c_stream;
+    the fourth component (an explicit `raise ValueError` was reached) <-> c_err; the reset slice <-> cusum_reset. *)
 From Coq Require Import String.
-From MV Require Import Base Num Lifecycle ChangeDet ChangeDet_Proofs Ddm Ddm_Proofs Prop_C04 Prop_C05.
+From MV Require Import Base Num Lifecycle Pairwise ChangeDet ChangeDet_Proofs Ddm Ddm_Proofs Prop_C04 Prop_C05.
 From MVG Require Import Scalar_Gen.
 Local Open Scope num_scope.
 
@@ -350,3 +358,455 @@ Print Assumptions Gen_C05_eddm_rule.
 Print Assumptions Gen_eddm_trace.
 Print Assumptions Gen_C05_eddm_recs.
 (* END EDDM *)
+
+(* BEGIN STEPD *)
+Section STEPD.
+Context {N : Num}.
+Notation F := (F N).
+
+Definition stepd_fields (e : @stepd_e N) : Z * Z * list Z * option F * option F :=
+  (s_s e, s_r e, s_window e, s_stat e, s_p e).
+
+Lemma py_get_hd (l : list Z) : py_get 0%Z l 0%Z = hd 0%Z l.
+Proof. destruct l; reflexivity. Qed.
+Lemma py_from_tl {A} (l : list A) : py_from l 1%Z = tl l.
+Proof. destruct l; reflexivity. Qed.
+
+Theorem STEPD_core_is_stepd_step :
+  forall (w : Z) (aw ad : F) (n s r : Z) (win : list Z) (stat pv : option F) (correct : bool) (oracle : F),
+  let p := {| stepd_window := w; stepd_alpha_warning := aw; stepd_alpha_drift := ad |} in
+  let e := {| s_s := s; s_r := r; s_window := win; s_stat := stat; s_p := pv |} in
+  fst (STEPD_core w aw ad n (s, r, win, stat, pv) correct oracle) =
+  (stepd_fields (fst (stepd_step p e n (correct, oracle))), snd (stepd_step p e n (correct, oracle))).
+Proof.
+  intros w aw ad n s r win stat pv correct oracle p e. subst p e.
+  unfold STEPD_core, stepd_step, stepd_fields, stepd_recent, stepd_past, stepd_overall, stepd_statistic, half, py_bitZ.
+  cbn [stepd_window stepd_alpha_warning stepd_alpha_drift s_s s_r s_window s_stat s_p fst snd]. cbv beta iota zeta.
+  rewrite !py_get_hd, !py_from_tl. unfold zlen, py_len.
+  destruct correct; cbv beta iota zeta; split_ifs; reflexivity.
+Qed.
+
+Lemma py_idx_ok_0_snoc {A} (l : list A) (c : A) : py_idx_ok (l ++ [c]) 0%Z = true.
+Proof. unfold py_idx_ok, py_len. rewrite app_length. cbn [length]. apply andb_true_intro. split; [apply Z.leb_le | apply Z.ltb_lt]; lia. Qed.
+
+(** the third component: no IndexError (the window is never empty where it is indexed), and ZeroDivisionError exactly for
+    the two int / int quotients 1 / (n - w), 1 / w of the statistic (the accuracies test their divisor themselves) *)
+Theorem STEPD_core_ok :
+  forall (w : Z) (aw ad : F) (n s r : Z) (win : list Z) (stat pv : option F) (correct : bool) (oracle : F),
+  snd (STEPD_core w aw ad n (s, r, win, stat, pv) correct oracle) =
+  (if (2 * w <=? n)%Z then negb (n - w =? 0)%Z && negb (w =? 0)%Z else true).
+Proof.
+  intros w aw ad n s r win stat pv correct oracle.
+  unfold STEPD_core, py_bitZ. cbv beta iota zeta. rewrite !py_idx_ok_0_snoc. unfold py_len.
+  repeat match goal with |- context [(Zpos ?q =? 0)%Z] => change (Zpos q =? 0)%Z with false end.   (* a literal divisor *)
+  destruct correct; cbv beta iota zeta; split_ifs; reflexivity.
+Qed.
+
+Corollary STEPD_core_ok_true : forall (w : Z) (aw ad : F) n st correct (oracle : F), (0 < w)%Z ->
+  snd (STEPD_core w aw ad n st correct oracle) = true.
+Proof.
+  intros w aw ad n [[[[s r] win] stat] pv] correct oracle Hw. rewrite STEPD_core_ok.
+  destruct (Z.leb_spec (2 * w) n); [|reflexivity].
+  replace (n - w =? 0)%Z with false by (symmetry; apply Z.eqb_neq; lia).
+  replace (w =? 0)%Z with false by (symmetry; apply Z.eqb_neq; lia). reflexivity.
+Qed.
+
+(** record form *)
+Corollary STEPD_core_eq : forall (p : @stepd_params N) e n correct oracle,
+  fst (STEPD_core (stepd_window p) (stepd_alpha_warning p) (stepd_alpha_drift p) n (stepd_fields e) correct oracle) =
+  (stepd_fields (fst (stepd_step p e n (correct, oracle))), snd (stepd_step p e n (correct, oracle))).
+Proof. intros [w aw ad] [s r win stat pv] n correct oracle. exact (STEPD_core_is_stepd_step w aw ad n s r win stat pv correct oracle). Qed.
+
+(** C05_stepd_rule of the translated update() *)
+Theorem Gen_C05_stepd_rule : forall (p : @stepd_params N) e n correct (oracle : F),
+  let r := fst (STEPD_core (stepd_window p) (stepd_alpha_warning p) (stepd_alpha_drift p) n (stepd_fields e) correct oracle) in
+  ((n < 2 * stepd_window p)%Z -> snd r = None) /\
+  ((2 * stepd_window p <= n)%Z ->
+     let '(s', r', win', stat', pv') := fst r in
+     let e1 := {| s_s := s'; s_r := r'; s_window := win'; s_stat := stat'; s_p := pv' |} in
+     let recent := stepd_recent e1 in let past := stepd_past e1 n in
+     let decreased := recent <? past in
+     snd r =
+       Some (if decreased && (oracle <? stepd_alpha_drift p) then DDrift
+             else if decreased && (oracle <? stepd_alpha_warning p) then DWarn else DNone)
+     /\ stat' = Some (stepd_statistic (stepd_window p) n recent past (stepd_overall e1 n))
+     /\ pv' = Some oracle).
+Proof.
+  intros p e n correct oracle r. subst r. rewrite (STEPD_core_eq p e n correct oracle). cbn [fst snd].
+  destruct (C05_stepd_rule p e n (correct, oracle)) as [H1 H2]. split; [exact H1|].
+  intros H. specialize (H2 H). cbv zeta in H2. cbn [snd] in H2. unfold stepd_fields.
+  destruct (fst (stepd_step p e n (correct, oracle))) as [s' r' win' stat' pv']. cbn [s_s s_r s_window s_stat s_p] in *.
+  exact H2.
+Qed.
+
+(** C05_stepd_window_invariant of machine + translated core is carried by the run simulation below *)
+Definition STEPD_gen (w : Z) (aw ad : F) : kernel :=
+  {| E := Z * Z * list Z * option F * option F; X := (bool * F)%type; reset_e := fun _ => (0%Z, 0%Z, [], None, None);
+     step_e := fun e n x => fst (STEPD_core w aw ad n e (fst x) (snd x)); policy := PolRun |}.
+
+Lemma Gen_stepd_run : forall (p : @stepd_params N) xs,
+  st_rel (STEPD_gen (stepd_window p) (stepd_alpha_warning p) (stepd_alpha_drift p)) (STEPD p) (fun t e => t = stepd_fields e)
+         (run (init (STEPD_gen (stepd_window p) (stepd_alpha_warning p) (stepd_alpha_drift p)) (0%Z, 0%Z, [], None, None)) xs)
+         (run (init (STEPD p) stepd_e0) (map (fun x => x) xs)).
+Proof.
+  intros p xs. apply (run_sim (STEPD_gen (stepd_window p) (stepd_alpha_warning p) (stepd_alpha_drift p)) (STEPD p)
+           (fun t e => t = stepd_fields e) (fun x => x)).
+  - reflexivity.
+  - intros; reflexivity.
+  - intros t e n [c o] ->. cbn [step_e STEPD_gen STEPD fst snd]. rewrite (STEPD_core_eq p e n c o). split; reflexivity.
+  - split; reflexivity.
+Qed.
+
+(** machine + translated core has the observable trace of the model (inputs: (correct?, oracle p-value)) *)
+Theorem Gen_stepd_trace : forall (p : @stepd_params N) xs,
+  trace (init (STEPD_gen (stepd_window p) (stepd_alpha_warning p) (stepd_alpha_drift p)) (0%Z, 0%Z, [], None, None)) xs =
+  trace (init (STEPD p) stepd_e0) xs.
+Proof.
+  intros p xs. rewrite <- (map_id xs) at 2.
+  apply (trace_sim (STEPD_gen (stepd_window p) (stepd_alpha_warning p) (stepd_alpha_drift p)) (STEPD p)
+           (fun t e => t = stepd_fields e) (fun x => x)).
+  - reflexivity.
+  - intros; reflexivity.
+  - intros t e n [c o] ->. cbn [step_e STEPD_gen STEPD fst snd]. rewrite (STEPD_core_eq p e n c o). split; reflexivity.
+  - split; reflexivity.
+Qed.
+
+(** C05_stepd_recs of machine + translated core *)
+Theorem Gen_C05_stepd_recs : forall (p : @stepd_params N) xs,
+  let s := run (init (STEPD_gen (stepd_window p) (stepd_alpha_warning p) (stepd_alpha_drift p)) (0%Z, 0%Z, [], None, None)) xs in
+  (ds s = DNone -> recs s = recs_none) /\
+  (ds s <> DNone -> exists a, recs s = (Some a, Some (total s - 1)%Z) /\ (a <= total s - 1)%Z).
+Proof.
+  intros p xs s. destruct (Gen_stepd_run p xs) as [_ Ho]. fold s in Ho. rewrite map_id in Ho.
+  unfold observe in Ho. injection Ho as -> -> _ ->. exact (C05_stepd_recs p xs).
+Qed.
+End STEPD.
+
+Print Assumptions STEPD_core_is_stepd_step.
+Print Assumptions STEPD_core_ok.
+Print Assumptions STEPD_core_ok_true.
+Print Assumptions STEPD_core_eq.
+Print Assumptions Gen_C05_stepd_rule.
+Print Assumptions Gen_stepd_trace.
+Print Assumptions Gen_C05_stepd_recs.
+(* END STEPD *)
+
+(* BEGIN CUSUM *)
+Section CUSUM.
+Context {N : Num}.
+Notation F := (F N).
+
+Definition cdir_of (o : option string) : option direction :=
+  match o with
+  | None => Some DirBoth
+  | Some s => if String.eqb s "positive" then Some DirPos else if String.eqb s "negative" then Some DirNeg else None
+  end.
+
+Definition cusum_abs (tg sd : option F) (ub lb stream : list F) : @cusum_e N :=
+  {| c_target := tg; c_sd := sd; c_up := last ub f0; c_lo := last lb f0; c_stream := rev stream; c_err := false |}.
+
+Section Idx.
+Context {A : Type} (d : A).
+Lemma py_idx_ok_last (l : list A) n : py_len l = n -> (1 <= n)%Z -> py_idx_ok l (n - 1)%Z = true.
+Proof. unfold py_idx_ok. intros -> H. apply andb_true_intro. split; [apply Z.leb_le | apply Z.ltb_lt]; lia. Qed.
+Lemma py_get_last (l : list A) n : py_len l = n -> (1 <= n)%Z -> py_get d l (n - 1)%Z = last l d.
+Proof.
+  unfold py_get, py_len. intros <- H. replace (Z.of_nat (length l) - 1 <? 0)%Z with false by (symmetry; apply Z.ltb_ge; lia).
+  replace (Z.to_nat (Z.of_nat (length l) - 1)) with (length l - 1)%nat by lia.
+  destruct l as [|a l] using rev_ind; [cbn in H; lia|]. rewrite last_last, app_length. cbn [length].
+  replace (length l + 1 - 1)%nat with (length l) by lia. rewrite app_nth2 by lia. rewrite Nat.sub_diag. reflexivity.
+Qed.
+Lemma py_idx_ok_m1_last (l : list A) n : py_len l = n -> (1 <= n)%Z -> py_idx_ok l (Z.opp 1) = true.
+Proof. unfold py_idx_ok. intros -> H. apply andb_true_intro. split; [apply Z.leb_le | apply Z.ltb_lt]; lia. Qed.
+Lemma py_get_m1_last (l : list A) n : py_len l = n -> (1 <= n)%Z -> py_get d l (Z.opp 1) = last l d.
+Proof.
+  intros H1 H2. rewrite <- (py_get_last l n H1 H2). unfold py_get. subst n.
+  change (Z.opp 1 <? 0)%Z with true. cbv iota. replace (py_len l - 1 <? 0)%Z with false by (symmetry; apply Z.ltb_ge; lia).
+  f_equal. lia.
+Qed.
+Lemma py_idx_ok_m1 (l : list A) v : py_idx_ok (l ++ [v]) (Z.opp 1) = true.
+Proof. unfold py_idx_ok, py_len. rewrite app_length. cbn [length]. apply andb_true_intro. split; [apply Z.leb_le | apply Z.ltb_lt]; lia. Qed.
+Lemma py_get_m1 (l : list A) v : py_get d (l ++ [v]) (Z.opp 1) = v.
+Proof.
+  unfold py_get, py_len. rewrite app_length. cbn [length]. change (Z.opp 1 <? 0)%Z with true. cbv iota.
+  replace (Z.to_nat (Z.opp 1 + Z.of_nat (length l + 1))) with (length l) by lia.
+  rewrite app_nth2 by lia. rewrite Nat.sub_diag. reflexivity.
+Qed.
+Lemma py_idx_ok_snoc (l : list A) v n : py_len l = n -> py_idx_ok (l ++ [v]) n = true.
+Proof. unfold py_idx_ok, py_len. intros <-. rewrite app_length. cbn [length]. apply andb_true_intro. split; [apply Z.leb_le | apply Z.ltb_lt]; lia. Qed.
+Lemma py_get_snoc (l : list A) v n : py_len l = n -> py_get d (l ++ [v]) n = v.
+Proof.
+  unfold py_get, py_len. intros <-. replace (Z.of_nat (length l) <? 0)%Z with false by (symmetry; apply Z.ltb_ge; lia).
+  rewrite Nat2Z.id. rewrite app_nth2 by lia. rewrite Nat.sub_diag. reflexivity.
+Qed.
+End Idx.
+
+Theorem CUSUM_core_is_cusum_step :
+  forall (b : Z) (delta thr : F) (dirs : option string) (d : direction) (n : Z) (tg sd : option F) (ub lb stream : list F) (x : F),
+  cdir_of dirs = Some d ->
+  py_len ub = n -> py_len lb = n -> (1 <= n)%Z ->
+  (tg = None -> (n <= b)%Z) -> (tg <> None -> sd <> None) ->
+  let p := {| c_burn_in := b; c_delta := delta; c_threshold := thr; c_dir := d |} in
+  let e := cusum_abs tg sd ub lb stream in
+  let e' := fst (cusum_step p e n x) in
+  CUSUM_core b delta thr dirs n (tg, sd, ub, lb, stream) x =
+  if c_err e'
+  then ((c_target e', c_sd e', ub, lb, stream ++ [x]), None, true, true)
+  else ((c_target e', c_sd e', ub ++ [c_up e'], lb ++ [c_lo e'], stream ++ [x]), snd (cusum_step p e n x), true, false).
+Proof.
+  intros b delta thr dirs d n tg sd ub lb stream x Hd Hub Hlb Hn Htg Hsd p e e'. subst e' e p.
+  unfold CUSUM_core, cusum_step, cusum_abs.
+  cbn [c_burn_in c_delta c_threshold c_dir c_target c_sd c_up c_lo c_stream c_err fst snd]. cbv beta iota zeta.
+  change (rev (x :: rev stream)) with (rev (rev stream) ++ [x]). rewrite ?rev_involutive.
+  assert (Hcmp : ((n <? b)%Z = true /\ (n =? b)%Z = false /\ (b <? n)%Z = false) \/
+                 ((n <? b)%Z = false /\ (n =? b)%Z = true /\ (b <? n)%Z = false) \/
+                 ((n <? b)%Z = false /\ (n =? b)%Z = false /\ (b <? n)%Z = true)).
+  { destruct (Z.lt_trichotomy n b) as [H|[H|H]]; [left | right; left | right; right];
+      (split; [|split]); try apply Z.ltb_lt; try apply Z.ltb_ge; try apply Z.eqb_eq; try apply Z.eqb_neq; lia. }
+  revert Hd. unfold cdir_of, py_none, py_ofloat, py_oeqb, py_ostr_eqb.
+  destruct dirs as [s|];
+    [destruct (String.eqb_spec s "positive") as [->|_]; [|destruct (String.eqb_spec s "negative") as [->|_]]|]; intros Hd;
+    try discriminate Hd; injection Hd as <-.
+  all: try change (String.eqb "positive" "positive") with true; try change (String.eqb "negative" "negative") with true;
+       try change (String.eqb "positive" "negative") with false; try change (String.eqb "negative" "positive") with false.
+  all: rewrite ?Z.leb_antisym; destruct Hcmp as [(H1 & H2 & H3)|[(H1 & H2 & H3)|(H1 & H2 & H3)]]; rewrite ?H1, ?H2, ?H3.
+  all: (destruct tg as [t|]; [destruct sd as [s0|]; [|exfalso; apply Hsd; congruence] | ]).
+  all: try (exfalso; apply Z.ltb_lt in H3; specialize (Htg eq_refl); lia).
+  all: cbn [andb orb negb]; cbv beta iota zeta.
+  all: cbn [fst snd c_err c_target c_sd c_up c_lo].
+  all: rewrite ?(py_idx_ok_last ub n Hub Hn), ?(py_idx_ok_last lb n Hlb Hn), ?(py_get_last f0 ub n Hub Hn), ?(py_get_last f0 lb n Hlb Hn),
+         ?py_idx_ok_m1, ?py_get_m1, ?(py_idx_ok_snoc ub _ n Hub), ?(py_idx_ok_snoc lb _ n Hlb), ?(py_get_snoc f0 ub _ n Hub), ?(py_get_snoc f0 lb _ n Hlb),
+         ?(py_idx_ok_m1_last ub n Hub Hn), ?(py_idx_ok_m1_last lb n Hlb Hn), ?(py_get_m1_last f0 ub n Hub Hn), ?(py_get_m1_last f0 lb n Hlb Hn).
+  all: try destruct sd as [s0|].
+  all: split_ifs; try reflexivity.
+Qed.
+
+(** the list the code keeps is the model's history, oldest first *)
+Lemma CUSUM_core_stream : forall (p : @cusum_params N) tg sd ub lb stream n x,
+  c_stream (fst (cusum_step p (cusum_abs tg sd ub lb stream) n x)) = rev (stream ++ [x]).
+Proof.
+  intros p tg sd ub lb stream n x. rewrite rev_unit. unfold cusum_step, cusum_abs. cbn [c_target c_sd c_stream].
+  destruct tg; [|destruct (n =? c_burn_in p)%Z]; cbv beta iota zeta;
+    repeat match goal with |- context [match ?o with Some _ => _ | None => _ end] => destruct o end; reflexivity.
+Qed.
+
+(** Python's stream[-burn_in:] (oldest first) is the model's [last_burn_in] of the newest-first history *)
+Lemma py_from_last_burn_in (b : Z) (l : list F) : (0 <= b)%Z -> py_from l (- b)%Z = last_burn_in b (rev l).
+Proof.
+  intros Hb. unfold py_from, last_burn_in, py_len. destruct (Z.eqb_spec b 0) as [->|Hne].
+  - cbn. rewrite rev_involutive. reflexivity.
+  - replace (- b <? 0)%Z with true by (symmetry; apply Z.ltb_lt; lia).
+    rewrite firstn_rev, rev_involutive. f_equal. lia.
+Qed.
+
+(** the reset slice = [cusum_reset] *)
+Theorem CUSUM_reset_core_is_cusum_reset :
+  forall (b : Z) (delta thr : F) (dirs : option string) (d : direction) (tg sd : option F) (ub lb stream : list F) (err : bool),
+  (0 <= b)%Z ->
+  let p := {| c_burn_in := b; c_delta := delta; c_threshold := thr; c_dir := d |} in
+  let e := {| c_target := tg; c_sd := sd; c_up := last ub f0; c_lo := last lb f0; c_stream := rev stream; c_err := err |} in
+  let e' := cusum_reset p e in
+  CUSUM_reset_core b delta thr dirs (tg, sd, ub, lb, stream) = ((c_target e', c_sd e', [c_up e'], [c_lo e'], stream), true) /\
+  c_stream e' = rev stream /\ c_err e' = err.
+Proof.
+  intros b delta thr dirs d tg sd ub lb stream err Hb p e e'. subst e' e p.
+  unfold CUSUM_reset_core, cusum_reset. cbn [c_burn_in c_target c_sd c_up c_lo c_stream c_err]. cbv beta iota zeta.
+  rewrite (py_from_last_burn_in b stream Hb). repeat split.
+Qed.
+
+(** C04_cusum_reset of the translated reset slice *)
+Theorem Gen_C04_cusum_reset : forall (b : Z) (delta thr : F) dirs tg sd ub lb (stream : list F), (0 <= b)%Z ->
+  let w := last_burn_in b (rev stream) in
+  CUSUM_reset_core b delta thr dirs (tg, sd, ub, lb, stream) = ((Some (np_mean w), Some (np_std w), [f0], [f0], stream), true).
+Proof.
+  intros b delta thr dirs tg sd ub lb stream Hb w.
+  destruct (CUSUM_reset_core_is_cusum_reset b delta thr dirs DirBoth tg sd ub lb stream false Hb) as [-> _].
+  match goal with |- context [cusum_reset ?p ?e] => destruct (C04_cusum_reset p e) as (-> & -> & -> & ->) end. reflexivity.
+Qed.
+
+(** C04_cusum_test of the translated update(): known target / sd *)
+Theorem Gen_C04_cusum_test :
+  forall (b : Z) (delta thr : F) dirs d (n : Z) (t s : F) (ub lb stream : list F) (x : F),
+  cdir_of dirs = Some d -> py_len ub = n -> py_len lb = n -> (1 <= n)%Z ->
+  let p := {| c_burn_in := b; c_delta := delta; c_threshold := thr; c_dir := d |} in
+  let z := (x - t) / s in
+  let up := pymax f0 ((last ub f0 + z) - delta) in
+  let lo := pymax f0 ((last lb f0 - delta) - z) in
+  let r := CUSUM_core b delta thr dirs n (Some t, Some s, ub, lb, stream) x in
+  let raised := feqb s f0 && (b <? n)%Z in
+  snd r = raised /\ snd (fst r) = true /\
+  (raised = false ->
+     fst (fst (fst r)) = (Some t, Some s, ub ++ [up], lb ++ [lo], stream ++ [x]) /\
+     (snd (fst (fst r)) = Some DDrift <-> (b < n)%Z /\ cusum_alarm p up lo = true)).
+Proof.
+  intros b delta thr dirs d n t s ub lb stream x Hd Hub Hlb Hn p z up lo r raised. subst r.
+  rewrite (CUSUM_core_is_cusum_step b delta thr dirs d n (Some t) (Some s) ub lb stream x Hd Hub Hlb Hn)
+    by (intros H; first [discriminate H | discriminate]).
+  fold p. set (e := cusum_abs (Some t) (Some s) ub lb stream).
+  assert (He : c_err (fst (cusum_step p e n x)) = raised) by reflexivity.
+  destruct (C04_cusum_test p e n x t s eq_refl eq_refl) as (H1 & H2 & H3 & H4 & H5). cbv zeta in H1, H2, H3, H4, H5.
+  rewrite He. destruct raised; cbn [fst snd]; (split; [reflexivity|split; [reflexivity|]]); intros Hr; [discriminate Hr|].
+  rewrite H1, H2, H3, H4. split; [reflexivity | exact H5].
+Qed.
+
+(** C04_cusum_estimation of the translated update(): target not given, first epoch *)
+Theorem Gen_C04_cusum_estimation :
+  forall (b : Z) (delta thr : F) dirs d (n : Z) (ub lb stream : list F) (x : F),
+  cdir_of dirs = Some d -> py_len ub = n -> py_len lb = n -> (1 <= n)%Z -> (n <= b)%Z ->
+  let r := CUSUM_core b delta thr dirs n (None, None, ub, lb, stream) x in
+  snd r = false /\ snd (fst r) = true /\ snd (fst (fst r)) = None /\
+  ((n <> b)%Z -> fst (fst (fst r)) = (None, None, ub ++ [f0], lb ++ [f0], stream ++ [x])) /\
+  ((n = b)%Z -> exists up lo,
+     fst (fst (fst r)) = (Some (np_mean (stream ++ [x])), Some (np_std (stream ++ [x])), ub ++ [up], lb ++ [lo], stream ++ [x])).
+Proof.
+  intros b delta thr dirs d n ub lb stream x Hd Hub Hlb Hn Hb r. subst r.
+  rewrite (CUSUM_core_is_cusum_step b delta thr dirs d n None None ub lb stream x Hd Hub Hlb Hn)
+    by (intros H; first [exact Hb | exfalso; apply H; reflexivity]).
+  set (p := {| c_burn_in := b; c_delta := delta; c_threshold := thr; c_dir := d |}).
+  set (e := cusum_abs None None ub lb stream).
+  destruct (C04_cusum_estimation p e n x) as [H1 H2]. specialize (H1 eq_refl eq_refl). cbv zeta in H1. destruct H1 as [H1 H1'].
+  specialize (H2 Hb).
+  assert (He : c_err (fst (cusum_step p e n x)) = false).
+  { unfold cusum_step, e, cusum_abs, p. cbn [c_target c_sd c_err c_burn_in]. destruct (Z.eqb_spec n b) as [->|Hne]; cbv beta iota zeta.
+    - rewrite Z.ltb_irrefl, andb_false_r. reflexivity.
+    - reflexivity. }
+  rewrite He, H2. cbn [fst snd]. repeat split.
+  - intros Hne. destruct (H1 Hne) as (-> & -> & ->).
+    assert (Hs : c_sd (fst (cusum_step p e n x)) = None).
+    { unfold cusum_step, e, cusum_abs, p. cbn [c_target c_sd c_burn_in]. destruct (Z.eqb_spec n b) as [E|_]; [contradiction|]. reflexivity. }
+    rewrite Hs. reflexivity.
+  - intros Heq. destruct (H1' Heq) as (-> & ->). unfold e, cusum_abs. cbn [c_stream].
+    change (rev (x :: rev stream)) with (rev (rev stream) ++ [x]). rewrite rev_involutive. eexists _, _. reflexivity.
+Qed.
+
+(** ---- whole runs: the generic lifecycle machine around the two translated slices ---- *)
+Definition CUSUM_gen (b : Z) (delta thr : F) (dirs : option string) : kernel :=
+  {| E := option F * option F * list F * list F * list F; X := F;
+     reset_e := fun e => fst (CUSUM_reset_core b delta thr dirs e);
+     step_e := fun e n x => fst (fst (CUSUM_core b delta thr dirs n e x));
+     policy := PolNoRecs |}.
+
+Lemma cusum_abs_eta (e : @cusum_e N) ub lb stream :
+  c_up e = last ub f0 -> c_lo e = last lb f0 -> c_stream e = rev stream -> c_err e = false ->
+  e = cusum_abs (c_target e) (c_sd e) ub lb stream.
+Proof. destruct e; cbn; intros -> -> -> ->; reflexivity. Qed.
+
+Lemma cusum_step_tg_sd (p : @cusum_params N) tg sd ub lb stream n x :
+  let e' := fst (cusum_step p (cusum_abs tg sd ub lb stream) n x) in
+  (c_target e' = None -> tg = None /\ n <> c_burn_in p) /\
+  ((tg <> None -> sd <> None) -> c_target e' <> None -> c_sd e' <> None).
+Proof.
+  unfold cusum_step, cusum_abs. cbn [c_target c_sd]. destruct tg as [t|]; [|destruct (Z.eqb_spec n (c_burn_in p))]; cbv beta iota zeta;
+    repeat match goal with |- context [match ?o with Some _ => _ | None => _ end] => destruct o end; cbn [fst c_target c_sd];
+    split; intros; try congruence; try (split; congruence); try (apply H; congruence).
+Qed.
+
+Lemma cusum_step_sim (p : @cusum_params N) dirs e tg sd ub lb stream n x :
+  e = cusum_abs tg sd ub lb stream ->
+  cdir_of dirs = Some (c_dir p) -> py_len ub = n -> py_len lb = n -> (1 <= n)%Z ->
+  (tg = None -> (n <= c_burn_in p)%Z) -> (tg <> None -> sd <> None) ->
+  let e' := fst (cusum_step p e n x) in
+  c_err e' = false ->
+  exists tg' sd' ub' lb' stream',
+    fst (fst (CUSUM_core (c_burn_in p) (c_delta p) (c_threshold p) dirs n (tg, sd, ub, lb, stream) x)) =
+      ((tg', sd', ub', lb', stream'), snd (cusum_step p e n x)) /\
+    e' = cusum_abs tg' sd' ub' lb' stream' /\ py_len ub' = (n + 1)%Z /\ py_len lb' = (n + 1)%Z /\
+    (tg' = None -> (n + 1 <= c_burn_in p)%Z) /\ (tg' <> None -> sd' <> None).
+Proof.
+  intros -> Hd Hub Hlb Hn Htg Hsd e' He.
+  pose proof (CUSUM_core_is_cusum_step (c_burn_in p) (c_delta p) (c_threshold p) dirs (c_dir p) n tg sd ub lb stream x Hd Hub Hlb Hn Htg Hsd) as Hc.
+  cbv zeta in Hc. destruct p as [b delta thr d]. cbn [c_burn_in c_delta c_threshold c_dir] in *. fold e' in Hc. rewrite He in Hc. rewrite Hc. cbn [fst].
+  exists (c_target e'), (c_sd e'), (ub ++ [c_up e']), (lb ++ [c_lo e']), (stream ++ [x]).
+  destruct (cusum_step_tg_sd {| c_burn_in := b; c_delta := delta; c_threshold := thr; c_dir := d |} tg sd ub lb stream n x) as [T1 T2].
+  cbv zeta in T1, T2. cbn [c_burn_in] in T1. fold e' in T1, T2.
+  split; [reflexivity|]. split.
+  - apply cusum_abs_eta; rewrite ?last_last; try reflexivity; [apply CUSUM_core_stream | exact He].
+  - unfold py_len in *. rewrite !app_length. cbn [length]. repeat split; try lia.
+    + intros H. destruct (T1 H) as [H1 H2]. specialize (Htg H1). lia.
+    + exact (T2 Hsd).
+Qed.
+
+Lemma cusum_step_err_sticky (p : @cusum_params N) e n x : c_err e = true -> c_err (fst (cusum_step p e n x)) = true.
+Proof.
+  intros H. unfold cusum_step. destruct (c_target e); [|destruct (n =? c_burn_in p)%Z]; cbv beta iota zeta;
+    repeat match goal with |- context [match ?o with Some _ => _ | None => _ end] => destruct o end; cbn [fst c_err]; rewrite H; reflexivity.
+Qed.
+
+Lemma cusum_update_epoch (p : @cusum_params N) (s : st (CUSUM p)) x :
+  epoch (update s x) = fst (cusum_step p (if is_drift (ds s) then cusum_reset p (epoch s) else epoch s)
+                                       ((if is_drift (ds s) then 0 else since s) + 1)%Z x).
+Proof.
+  unfold update. destruct (is_drift (ds s)); unfold do_reset; cbn [epoch since total ds recs step_e reset_e CUSUM];
+    match goal with |- context [cusum_step ?a ?b ?c ?d] => destruct (cusum_step a b c d) end; reflexivity.
+Qed.
+
+Lemma cusum_run_err_sticky (p : @cusum_params N) xs : forall s : st (CUSUM p),
+  c_err (epoch s) = true -> c_err (epoch (run s xs)) = true.
+Proof.
+  induction xs as [|x xs IH]; intros s H; [exact H|]. cbn [run fold_left]. apply IH. rewrite cusum_update_epoch.
+  apply cusum_step_err_sticky. destruct (is_drift (ds s)); [exact H | exact H].
+Qed.
+
+Definition cusum_inv (p : @cusum_params N) dirs (s1 : st (CUSUM_gen (c_burn_in p) (c_delta p) (c_threshold p) dirs)) (s2 : st (CUSUM p)) : Prop :=
+  let '(tg, sd, ub, lb, stream) := epoch s1 in
+  epoch s2 = cusum_abs tg sd ub lb stream /\ py_len ub = (since s1 + 1)%Z /\ py_len lb = (since s1 + 1)%Z /\ (0 <= since s1)%Z /\
+  (tg = None -> (since s1 + 1 <= c_burn_in p)%Z) /\ (tg <> None -> sd <> None) /\ observe s1 = observe s2.
+
+Lemma cusum_update_sim (p : @cusum_params N) dirs s1 s2 x :
+  cdir_of dirs = Some (c_dir p) -> (0 <= c_burn_in p)%Z -> cusum_inv p dirs s1 s2 ->
+  c_err (epoch (update s2 x)) = false -> cusum_inv p dirs (update s1 x) (update s2 x).
+Proof.
+  intros Hd Hb. destruct s1 as [[[[[tg sd] ub] lb] stream] t1 n1 d1 r1], s2 as [e2 t2 n2 d2 r2].
+  unfold cusum_inv, observe. cbn [epoch ds total since recs].
+  intros (He & Hub & Hlb & Hn & Htg & Hsd & Ho) Herr. injection Ho as -> -> -> ->. subst e2.
+  rewrite cusum_update_epoch in Herr. cbn [epoch ds since] in Herr. revert Herr.
+  unfold update. cbn [ds]. destruct (is_drift d2); unfold do_reset; cbn [epoch ds total since recs reset_e step_e CUSUM_gen CUSUM policy]; intros Herr.
+  - destruct (CUSUM_reset_core_is_cusum_reset (c_burn_in p) (c_delta p) (c_threshold p) dirs (c_dir p) tg sd ub lb stream false Hb) as (Hr & Hs & Hf).
+    cbv zeta in Hr, Hs, Hf. destruct p as [b delta thr d]. cbn [c_burn_in c_delta c_threshold c_dir] in *.
+    change {| c_target := tg; c_sd := sd; c_up := last ub f0; c_lo := last lb f0; c_stream := rev stream; c_err := false |}
+      with (cusum_abs tg sd ub lb stream) in Hr, Hs, Hf.
+    set (p := {| c_burn_in := b; c_delta := delta; c_threshold := thr; c_dir := d |}) in *.
+    set (er := cusum_reset p (cusum_abs tg sd ub lb stream)) in *. rewrite Hr. cbn [fst].
+    assert (Eer : er = cusum_abs (c_target er) (c_sd er) [c_up er] [c_lo er] stream) by (apply cusum_abs_eta; auto).
+    destruct (cusum_step_sim p dirs er (c_target er) (c_sd er) [c_up er] [c_lo er] stream (0 + 1)%Z x Eer Hd eq_refl eq_refl ltac:(lia))
+      as (tg' & sd' & ub' & lb' & stream' & Hc & He' & Hu' & Hl' & Ht' & Hs'); try exact Herr; try (intros H; discriminate H); try (intros _; discriminate).
+    change (c_burn_in p) with b in Hc. change (c_delta p) with delta in Hc. change (c_threshold p) with thr in Hc.
+    rewrite Hc. destruct (cusum_step p er (0 + 1) x) as [e' od] eqn:E.
+    cbn [fst snd] in He' |- *. cbn [epoch ds total since recs]. repeat split; try assumption; lia.
+  - assert (Hn1 : (1 <= n2 + 1)%Z) by lia.
+    destruct (cusum_step_sim p dirs _ tg sd ub lb stream (n2 + 1)%Z x eq_refl Hd Hub Hlb Hn1 Htg Hsd Herr)
+      as (tg' & sd' & ub' & lb' & stream' & Hc & He' & Hu' & Hl' & Ht' & Hs').
+    rewrite Hc. destruct (cusum_step p (cusum_abs tg sd ub lb stream) (n2 + 1) x) as [e' od] eqn:E.
+    cbn [fst snd] in He' |- *. cbn [epoch ds total since recs]. repeat split; try assumption; lia.
+Qed.
+
+(** machine + translated slices has the observable trace of the model on every run during which the model never sets
+    [c_err] (i.e. update() never raises "sd_hat is zero": after a raise a Python run is over) *)
+Theorem Gen_cusum_trace : forall (p : @cusum_params N) dirs (tg0 sd0 : option F) xs,
+  cdir_of dirs = Some (c_dir p) -> (0 <= c_burn_in p)%Z -> (tg0 = None -> (1 <= c_burn_in p)%Z) -> (tg0 <> None -> sd0 <> None) ->
+  c_err (epoch (run (init (CUSUM p) (cusum_e0 tg0 sd0)) xs)) = false ->
+  trace (init (CUSUM_gen (c_burn_in p) (c_delta p) (c_threshold p) dirs) (tg0, sd0, [f0], [f0], [])) xs =
+  trace (init (CUSUM p) (cusum_e0 tg0 sd0)) xs.
+Proof.
+  intros p dirs tg0 sd0 xs Hd Hb Ht0 Hs0.
+  assert (H0 : cusum_inv p dirs (init (CUSUM_gen (c_burn_in p) (c_delta p) (c_threshold p) dirs) (tg0, sd0, [f0], [f0], []))
+                         (init (CUSUM p) (cusum_e0 tg0 sd0))).
+  { unfold cusum_inv, init. cbn [epoch since]. repeat split; try reflexivity; try lia; try exact Hs0; try (intros H; specialize (Ht0 H); lia). }
+  revert H0. generalize (init (CUSUM_gen (c_burn_in p) (c_delta p) (c_threshold p) dirs) (tg0, sd0, [f0], [f0], [])), (init (CUSUM p) (cusum_e0 tg0 sd0)).
+  induction xs as [|x xs IH]; intros s1 s2 Hinv Herr; [reflexivity|]. cbn [trace]. change (c_err (epoch (run (update s2 x) xs)) = false) in Herr.
+  assert (Hx : c_err (epoch (update s2 x)) = false).
+  { destruct (c_err (epoch (update s2 x))) eqn:E; [|reflexivity]. rewrite (cusum_run_err_sticky p xs _ E) in Herr. discriminate Herr. }
+  pose proof (cusum_update_sim p dirs s1 s2 x Hd Hb Hinv Hx) as Hinv'.
+  rewrite (IH _ _ Hinv' Herr). f_equal.
+  unfold cusum_inv in Hinv'. destruct (epoch (update s1 x)) as [[[[a b0] c] d0] e0]. destruct Hinv' as (_ & _ & _ & _ & _ & _ & Ho). exact Ho.
+Qed.
+End CUSUM.
+
+Print Assumptions CUSUM_core_is_cusum_step.
+Print Assumptions CUSUM_core_stream.
+Print Assumptions CUSUM_reset_core_is_cusum_reset.
+Print Assumptions Gen_C04_cusum_reset.
+Print Assumptions Gen_C04_cusum_test.
+Print Assumptions Gen_C04_cusum_estimation.
+Print Assumptions Gen_cusum_trace.
+(* END CUSUM *)
